@@ -5,6 +5,7 @@ PID = "C02"
 PRELUDE = H.PRELUDE
 FAILING = H.FAILING
 SHARD = 60
+IMPL_BATCH = 125      # histories per implementation subprocess (each step scans gc.get_objects(): keep batches small)
 RULE = ("random histories of 8-35 operations biased towards table construction (dict, vectors, >>, <<, selections, "
         "joins, sorts, transposes) and in-place updates (cell, row, column, region, attribute assignment, renames), "
         "including rejected ones (ragged input, wrong-length columns); after every step every live table is checked; "
